@@ -16,6 +16,7 @@ import re
 import shutil
 
 from canmon import gen, odcompare, rigs
+from canmon.ref import codec as R
 from canmon.ref import eds_writer
 
 ID = "C14"
@@ -86,12 +87,41 @@ def run(ctx, desc):
                     docs[dest] = text
                     fp = io.StringIO(text)
                     fp.name = "back." + doc
-                    od2 = canopen.import_od(fp, node_id)
+                    # a DCF carries its node id: re-importing it needs no explicit one
+                    od2 = canopen.import_od(fp, None if (dcf and dest == "stream") else node_id)
                 except Exception as exc:  # noqa: BLE001
                     ctx.violation(f"roundtrip-raised:{type(exc).__name__}:{dest}", f"export/import via {dest} raised {type(exc).__name__}: {exc}", c)
                     continue
                 odcompare.compare(ctx, model, od2, c, "roundtrip", dcf=dcf, node_known=True, check_value=dcf, check_relative=False,
                                   check_node=dcf, expect_node_id=node_id if dcf else None, expect_bitrate=model.bitrate if dcf else None)
+            # ---- edit the dictionary and export it again: the second document must describe the edited dictionary
+            try:
+                edited = 0
+                for o, vm in model.variables():
+                    if o.kind == "var" and vm.dt in (R.UNSIGNED16, R.UNSIGNED32, R.INTEGER16, R.INTEGER32, R.UNSIGNED8) and vm.default_rel is None and edited < 4:
+                        lo_, hi_ = R.int_range(vm.dt)
+                        vm.default = rng.randint(lo_, hi_)
+                        od[vm.index].default = vm.default
+                        if origin == "imported":
+                            od[vm.index].default_raw = None          # the application replaced the text read from the file
+                        if dcf:
+                            vm.value = rng.randint(lo_, hi_)
+                            od[vm.index].value = vm.value
+                            if origin == "imported":
+                                od[vm.index].value_raw = None
+                        edited += 1
+                if edited:
+                    fp = io.StringIO()
+                    canopen.export_od(od, fp, doc_type=doc)
+                    fp2 = io.StringIO(fp.getvalue())
+                    fp2.name = "again." + doc
+                    od3 = canopen.import_od(fp2, node_id)
+                    ctx.case((origin, doc, "second-export-after-edit"), nontrivial=True)
+                    odcompare.compare(ctx, model, od3, dict(case, destination="second-export-after-edit"), "roundtrip", dcf=dcf, node_known=True,
+                                      check_value=dcf, check_relative=False, check_node=dcf, expect_node_id=node_id if dcf else None,
+                                      expect_bitrate=model.bitrate if dcf else None)
+            except Exception as exc:  # noqa: BLE001
+                ctx.violation(f"roundtrip-raised:{type(exc).__name__}:second-export", f"second export after an edit raised {exc!r}", case)
             if len(docs) == 3:
                 ctx.count("documents_compared")
                 masked = {d: mask_fileinfo(t) for d, t in docs.items()}
